@@ -219,7 +219,7 @@ func (sc *scenario) live() []*vclient.Client {
 // checkpoint: quiesce, fold, compare with the truth.
 func (sc *scenario) checkpoint(final bool) {
 	if !vclient.Quiesce(sc.live(), 3, 25*time.Millisecond, 30*time.Second) {
-		sc.run.Inconclusive("quiescence watchdog fired")
+		sc.run.Undecided("quiescence watchdog fired")
 		sc.bad = true
 		return
 	}
@@ -291,7 +291,7 @@ func (sc *scenario) connect(s *slot, r *rand.Rand) {
 	id := fmt.Sprintf("b%ds%dc%dg%d", sc.batch, sc.idx, s.n, s.gen)
 	c, err := vclient.Dial(sc.srv, id)
 	if err != nil {
-		sc.run.Inconclusive("dial failed: " + err.Error())
+		sc.run.Undecided("dial failed: " + err.Error())
 		sc.bad = true
 		return
 	}
@@ -339,8 +339,8 @@ func (sc *scenario) join(s *slot, r *rand.Rand) {
 		return m.Str("type") == "joined" && (m.Str("kind") == "join" || m.Str("kind") == "fail" || m.Str("kind") == "redirect")
 	}, 30*time.Second)
 	if !ok {
-		if closed, _ := s.c.Closed(); !closed {
-			sc.run.Inconclusive("no reply to join within the watchdog")
+		if !s.c.WaitClosed(3 * time.Second) {
+			sc.run.Undecided("no reply to join within the watchdog")
 			sc.bad = true
 		}
 		return
@@ -377,8 +377,8 @@ func (sc *scenario) joinAs(s *slot, g, user, pw string) {
 		return m.Str("type") == "joined" && (m.Str("kind") == "join" || m.Str("kind") == "fail")
 	}, 30*time.Second)
 	if !ok {
-		if closed, _ := s.c.Closed(); !closed {
-			sc.run.Inconclusive("no reply to join within the watchdog")
+		if !s.c.WaitClosed(3 * time.Second) {
+			sc.run.Undecided("no reply to join within the watchdog")
 			sc.bad = true
 		}
 		return
@@ -650,6 +650,7 @@ func main() {
 	run := vk.Start("C14")
 	batches := run.Pick(10, 160)
 	scen := run.Pick(4, 6)
+	run.TolerateUndecided(run.Pick(2, 8))
 	acts := run.Pick(240, 600)
 	first := uint64(0)
 	if rep, ok := vk.ReplayInput(); ok {
